@@ -448,6 +448,14 @@ pub enum PreKind {
     DepthExec(u8),
     /// add and execute a program that succeeds (macros, stored-program reference)
     OkExec(u8),
+    /// a sibling context: cloned from the case's context once its programs are added, every
+    /// stored program except main re-added with another text there and with its own text
+    /// here (the same number of steps on both sides), the sibling's main executed first on
+    /// this thread; the sibling stays alive during the exec under test
+    SiblingCtx(u8),
+    /// a sibling binding set: cloned from the case's bindings, every parameter rebound to
+    /// another value there and to its own value here, main executed with the sibling first
+    SiblingBind(u8),
 }
 
 pub const BAD_TEXTS: [&str; 6] = ["1 +", "(", "[1, 2", "x ? 1", "'abc", "1 2"];
